@@ -150,7 +150,9 @@ impl WriteAheadLog {
     }
 
     pub(crate) fn last_lsn(&self) -> Option<Lsn> {
-        self.header.last_lsn()
+        // Last LSN of the whole log, not of block zero: records appended to later blocks
+        // do not touch the block zero range and would otherwise all get the same LSN.
+        self.header.metadata().wal_header.global_last_lsn
     }
 
     /// Runs the analysis phase of the ARIES recovery protocol.
